@@ -205,6 +205,10 @@ pub struct RunCfg {
     /// fault F8: RLIMIT_FSIZE (bytes) in force while this invocation runs
     #[serde(default)]
     pub fsize_limit: Option<u64>,
+    /// console knob: 0 = Verbosity::Quiet; 1 = Normal, 2 = Verbose with stderr on /dev/null;
+    /// 3 = Normal, 4 = Verbose with stderr on /dev/full (every progress write fails with ENOSPC)
+    #[serde(default)]
+    pub console: u8,
 }
 
 impl RunCfg {
@@ -220,6 +224,7 @@ impl RunCfg {
             trailing_newline: true,
             shell: String::new(),
             fsize_limit: None,
+            console: 0,
         }
     }
 }
